@@ -111,6 +111,13 @@ func scenarios() []scenario {
 		dump.File{Name: "m.yang", Text: `module m { ` + H("m") + ` include s1; include s2; leaf u { type t1; } container k { uses g2; } leaf ir { type identityref { base i1; } } }`},
 		dump.File{Name: "s1.yang", Text: `submodule s1 { belongs-to m { prefix m; } typedef t1 { type int8; } identity i1; identity i3 { base i1; } container c1 { leaf a { type t1; } } }`},
 		dump.File{Name: "s2.yang", Text: `submodule s2 { belongs-to m { prefix m; } include s1; grouping g2 { leaf b { type t1; } } identity i2 { base i1; } container c2 { uses g2; } augment /m:c1 { leaf aug { type string; } } }`})
+	// one prefix bound to two different modules by a module and its submodule (prefixes are
+	// scoped per file), reached from typedefs, identities, leaves, uses and augments
+	add("submodule-one-prefix-two-modules", nil,
+		dump.File{Name: "x.yang", Text: `module x { ` + H("x") + ` typedef t { type string; } identity b; grouping g { leaf gx { type t; } } container cx; }`},
+		dump.File{Name: "y.yang", Text: `module y { ` + H("y") + ` typedef t { type int32; } identity b; grouping g { leaf gy { type t; } } container cy; }`},
+		dump.File{Name: "m.yang", Text: `module m { ` + H("m") + ` import x { prefix p; } include s1; typedef tm { type p:t; } identity im { base p:b; } leaf lm { type tm; } leaf lm2 { type p:t; } container um { uses p:g; } augment /p:cx { leaf am { type p:t; } } leaf rm { type identityref { base p:b; } } }`},
+		dump.File{Name: "s1.yang", Text: `submodule s1 { belongs-to m { prefix m; } import y { prefix p; } typedef ts { type p:t; } identity is { base p:b; } leaf ls { type ts; } leaf ls2 { type p:t; } container us { uses p:g; } augment /p:cy { leaf as { type p:t; } } leaf rs { type identityref { base p:b; } } }`})
 	add("uses-and-typedef-cross", nil, a, dump.File{Name: "g.yang", Text: `module g { ` + H("g") + ` typedef t { type int8 { range "1..9"; } } grouping gg { leaf gl { type t; } container gc { leaf gd { type t; default 3; } } } }`},
 		dump.File{Name: "u.yang", Text: `module u { ` + H("u") + ` import g { prefix g; } import a { prefix a; } typedef t { type string; } container k1 { uses g:gg; } container k2 { uses g:gg; leaf own { type t; } } augment /a:c { uses g:gg; } deviation /u:k1/u:gl { deviate replace { type string; } } }`})
 	// pairwise combinations of scenarios that extend module a with differently named modules
